@@ -2,14 +2,19 @@ import Sudachi.Model.Build
 /-!
 # Line protocol of the dictionary-compiler model (C06)
 
-`C06 build idx=<n> v=<5 bits d1..d5> nd=<code points> user=<-|numSystem,maxLeft,maxRight>
-   upos=<pos;…> usys=<word;…> conn=<-|hex of the matrix text> recs=<rec;…> lines=<n,…>
-   csverr=<-|line> resolve=<0|1> desc=<n> trie=<n> ks=<-|all|n,…>`
+`C06 build idx=<n> v=<5 bits d1..d5> rf=<cur|fix> nd=<code points> user=<-|numSystem,maxLeft,maxRight>
+   upos=<pos;…> usys=<word;…> ops=<op>|<op>|… desc=<n> trie=<n> ks=<-|all|n,…>`
 
+* `rf` = handling of the builder's `resolved` flag (`cur`: only `resolve` sets it; `fix`:
+  `read_lexicon` clears it);
+* an op is one call on the builder, in order: `C<hex of the matrix text>` = `read_conn`, `R` =
+  `resolve`, `L<-|line of the csv failure>!<line,…>!<rec;…>` = `read_lexicon` (the records the csv
+  reader delivered with their line numbers);
 * a record is `h<hex>:h<hex>:…` (one item per field, hex of the UTF-8 bytes);
 * a POS row is six such items; a system word is `h<surface>:<pos id>:<n|r<hex reading>>`;
 * `ks` lists sink limits (bytes the sink accepts before failing) to try after the unlimited run;
-  `all` = every limit from 0 to the output length + 1.  The answer is the unlimited outcome followed by
+  `all` = every limit from 0 to the output length + 1.  The answer is the unlimited outcome (a
+  failure before `compile` is followed by `#<position of the failing op>`) followed by
   ` sink=<outcome>*<count>,…` (run-length encoded in the order of the limits).
 -/
 namespace Build
@@ -81,10 +86,29 @@ def sysWord? (s : List Char) : Option SysWord :=
 def optNat? (s : List Char) : Option (Option Nat) :=
   if s = ['-'] then some none else (Wire.nat? s).map some
 
-def variant? (s : List Char) : Option Variant :=
+def variant? (s rf : List Char) : Option Variant :=
   match s with
-  | [a, b, c, d, e] => some ⟨a = '1', b = '1', c = '1', d = '1', e = '1'⟩
+  | [a, b, c, d, e] =>
+    if rf = ['c', 'u', 'r'] then some ⟨a = '1', b = '1', c = '1', d = '1', e = '1', false⟩
+    else if rf = ['f', 'i', 'x'] then some ⟨a = '1', b = '1', c = '1', d = '1', e = '1', true⟩
+    else none
   | _ => none
+
+def op? (s : List Char) : Option Op :=
+  match s with
+  | ['R'] => some .resolve
+  | 'C' :: h => (Wire.hexBytes? h).map (fun bs => .conn ((splitLines bs).map utf8Strict))
+  | 'L' :: r =>
+    match Wire.splitOn '!' r with
+    | [ce, lines, recs] =>
+      match optNat? ce, Wire.natList? lines, records? recs with
+      | some ce, some lines, some recs =>
+        if recs.length ≠ lines.length then none else some (.lex (lines.zip recs) ce)
+      | _, _, _ => none
+    | _ => none
+  | _ => none
+
+def ops? (s : List Char) : Option (List Op) := Wire.allSome ((Wire.items '|' s).map op?)
 
 def showKind : ErrKind → String
   | .InvalidSize => "InvalidSize" | .InvalidFieldSize => "InvalidFieldSize" | .Io => "Io"
@@ -143,42 +167,34 @@ def limits? (ks : List Char) (unlimited : Outcome) : Option (List Nat) :=
 
 def handle (toks : List (List Char)) : String :=
   let g := fun k => Wire.kv? toks k
-  match g "v", g "nd", g "user", g "upos", g "usys", g "conn", g "recs", g "lines" with
-  | some v, some nd, some user, some upos, some usys, some conn, some recs, some lines =>
-    match g "csverr", g "resolve", g "desc", g "trie", g "ks" with
-    | some csverr, some res, some desc, some trie, some ks =>
-      match variant? v, Wire.natList? nd, base? user upos usys, records? recs, Wire.natList? lines with
-      | some v, some nd, some base, some recs, some lines =>
-        match optNat? csverr, Wire.nat? desc, Wire.nat? trie with
-        | some csverr, some desc, some trie =>
-          let connLines : Option (Option (List (Option Str))) :=
-            if conn = ['-'] then some none
-            else (Wire.hexBytes? conn).map (fun bs => some ((splitLines bs).map utf8Strict))
-          match connLines with
-          | none => "bad-op"
-          | some connLines =>
-            if recs.length ≠ lines.length then "bad-op"
-            else
-              let inp : Input := {
-                base := base, conn := connLines, recs := lines.zip recs, csvErr := csverr,
-                doResolve := res = ['1'], descLen := desc, trieLen := trie }
-              match prepare v ⟨nd.map Char.ofNat⟩ inp with
-              | .error f =>
-                let o := f.toOutcome
-                (match limits? ks o with
-                | none => "bad-op"
-                | some [] => showOutcome base o
-                | some l => showOutcome base o ++ " sink=" ++ rle (l.map (fun _ => shortOutcome o)))
-              | .ok p =>
-                let o := finish v p desc trie none
-                match limits? ks o with
-                | none => "bad-op"
-                | some [] => showOutcome base o
-                | some l =>
-                  showOutcome base o ++ " sink=" ++ rle (l.map (fun k => shortOutcome (finish v p desc trie (some k))))
-        | _, _, _ => "bad-op"
-      | _, _, _, _, _ => "bad-op"
-    | _, _, _, _, _ => "bad-op"
-  | _, _, _, _, _, _, _, _ => "bad-op"
+  match g "v", g "rf", g "nd", g "user", g "upos", g "usys", g "ops" with
+  | some v, some rf, some nd, some user, some upos, some usys, some ops =>
+    match g "desc", g "trie", g "ks" with
+    | some desc, some trie, some ks =>
+      match variant? v rf, Wire.natList? nd, base? user upos usys, ops? ops with
+      | some v, some nd, some base, some ops =>
+        match Wire.nat? desc, Wire.nat? trie with
+        | some desc, some trie =>
+          let inp : Input := { base := base, ops := ops, descLen := desc, trieLen := trie }
+          let x : Ext := ⟨nd.map Char.ofNat⟩
+          match prepare v x inp with
+          | .error f =>
+            let o := f.toOutcome
+            let head := showOutcome base o ++ "#" ++ toString (failIdx v x (Builder.init base, 0) ops 0)
+            (match limits? ks o with
+            | none => "bad-op"
+            | some [] => head
+            | some l => head ++ " sink=" ++ rle (l.map (fun _ => shortOutcome o)))
+          | .ok p =>
+            let o := finish v p desc trie none
+            match limits? ks o with
+            | none => "bad-op"
+            | some [] => showOutcome base o
+            | some l =>
+              showOutcome base o ++ " sink=" ++ rle (l.map (fun k => shortOutcome (finish v p desc trie (some k))))
+        | _, _ => "bad-op"
+      | _, _, _, _ => "bad-op"
+    | _, _, _ => "bad-op"
+  | _, _, _, _, _, _, _ => "bad-op"
 
 end Build
